@@ -165,15 +165,17 @@ func (s *objectStore) Stop() error {
 	if s.stopped {
 		return nil
 	}
-	err := s.doSyncLocked()
-	if err != nil {
-		return err
-	}
-
+	// a store that is being stopped must not go on flushing, whatever becomes of its final flush: the caller
+	// retries a failed Stop only a limited number of times, and has already dropped the store
 	select {
 	case <-s.stopCh:
 	default:
 		close(s.stopCh)
+	}
+
+	err := s.doSyncLocked()
+	if err != nil {
+		return err
 	}
 
 	err = s.localStore.Stop()
